@@ -244,6 +244,23 @@ static void ctable_vector_cb(const uint8_t *len, int k, void *u)
 		}
 		if (alt == 0) break;
 	}
+	/* code count larger than the last used code: the unused tail is written as zero lengths reaching the count */
+	{
+		static const int pads[] = { 1, 2, 3, 18, 19, 20, 21, 40, 9999 };
+		int pi, last = tc->syms[k - 1] + 1, prev = -1;
+		for (pi = 0; pi < 9; ++pi) {
+			int cn = last + pads[pi];
+			if (cn > M->nc) cn = M->nc;
+			if (cn == last || cn == prev) continue;
+			prev = cn;
+			b.c_n = cn;
+			ref_lh_tokenise(&b, 0);
+			ref_lh_temp_auto(&b);
+			if (vf_case("%s csyms=%d.. clen=[%s] count=%d (last used code %d)", M->name, tc->syms[0], vf_hex(len, k), cn, last - 1))
+				emit_and_check(&b, 1, 1);
+		}
+		b.c_n = last;
+	}
 	/* temp-table encodings (all complete vectors when few temp symbols are in use) */
 	ref_lh_tokenise(&b, 0);
 	snprintf(what, sizeof what, "csyms=%d.. clen=[%s]", tc->syms[0], vf_hex(len, k));
